@@ -166,6 +166,18 @@ CHECKS = {
   note='A5 runs lark (the grammar compiler) on sentences derived from its own tables; pharmpy is not executed. '
        'Trusted: lark scanner ordering as implemented in the installed version.',
   ref='DESIGN.md §2 C04, C01-A5'),
+ 'C19': dict(
+  technique='docstring-formula versus returned-expression comparison (small formula parser, idiom table for the counts, '
+            'sympy as normaliser), clone-consistency (anti-unification) of per-kind sibling definitions, guard-table '
+            'evaluation of the LRT cut-off, CFG dominance of the penalty step, ordering-source agreement in the delta '
+            'method',
+  text='N1-N5 decide that the criteria are the documented functions of the documented counts, that the LRT is oriented '
+       'and signed as defined for forward and backward steps, and that penalties/cut-offs and gradient/covariance are '
+       'combined consistently. Numerics of bootstrap/cdd/shrinkage statistics and tie handling in rank_models depend on '
+       'run-time values and are not decided.',
+  note='Idiom table (len(get_observations(model)) = n_observations, ...) is explicit in rules/C19.py with one line of '
+       'reason each.',
+  ref='DESIGN.md §2 C19'),
 }
 NA = {}
 
